@@ -270,7 +270,9 @@ public:
         requires(detail::is_transparent_v<key_compare>)
     [[nodiscard]] constexpr auto count(K const& x) const -> size_type
     {
-        return contains(x) ? 1 : 0;
+        // A key of another type can be equivalent to more than one element.
+        auto const range = equal_range(x);
+        return static_cast<size_type>(range.second - range.first);
     }
 
     /// \brief Finds an element with key equivalent to key.
